@@ -730,10 +730,12 @@ public:
         if (i >= t.m_len) return 0;
         QM_LIMIT(t.m_len - i <= 15);   // model: more than 15 digits not modelled (would need 128-bit accumulation)
         qlonglong v = 0; bool bad = false;
-        for (int k = 0; k < QM_STR_CAP; ++k) if (k >= i && k < t.m_len) {
+        // (at most 15 digits after an optional sign, so 16 positions suffice; x10 as shift-and-add: a generic 64-bit multiplier per
+        //  position dominated the SAT instance of every harness that parses numbers out of symbolic file names)
+        for (int k = 0; k < 16 && k < QM_STR_CAP; ++k) if (k >= i && k < t.m_len) {
             ushort c = t.m_d[k];
             if (c < '0' || c > '9') bad = true;
-            else v = v * 10 + (c - '0');
+            else v = (v << 3) + (v << 1) + (c - '0');
         }
         if (bad) return 0;
         if (neg) v = -v;
